@@ -91,6 +91,7 @@ type HarnessResult struct {
 	Nondets        int                `json:"nondet_inputs"`
 	Paths          int                `json:"paths"`
 	NontrivialPaths int               `json:"nontrivial_paths"`
+	Decisions      int                `json:"branch_decisions"`
 	PathSamples    []any              `json:"path_samples,omitempty"`
 	Mode           string             `json:"mode"`
 	UnreachableCex int                `json:"counterexamples_from_unreachable_prestates"`
@@ -240,6 +241,7 @@ func (r *Run) runHarness(ld *Loaded, fn *ssa.Function, src string) {
 		}
 		nAssertsBefore := hr.Obligations
 		r.processPath(ld, fn, d, hr, in, solver, seenSample, knownSeen)
+		hr.Decisions += len(in.decisions)
 		if d.Mode == "fork" && len(in.decisions) > 0 && hr.Obligations > nAssertsBefore {
 			// a path that took at least one solver-decided branch and reached an assertion
 			hr.NontrivialPaths++
@@ -897,6 +899,11 @@ func (r *Run) replayVerdict(out string, cf cexFile) string {
 	}
 	if cf.Kind == "panic" {
 		if strings.Contains(out, "VERIF-PANIC") || strings.Contains(out, "panic:") || strings.Contains(out, "stack overflow") {
+			return "REPRODUCED"
+		}
+		// a panic inside a handler is recovered by the real machine and surfaces as Exception: harnesses that
+		// call repo code from inside a handler assert "no-handler-fault" for exactly that outcome
+		if strings.Contains(out, "VERIF-ASSERT no-handler-fault false") {
 			return "REPRODUCED"
 		}
 		if strings.Contains(out, "VERIF-LOG unreachable-prestate") {
